@@ -32,7 +32,7 @@ RULE = ("seeded swarm with all three sinks attached (on_metric, on_log, timeline
 COMPONENTS = common.REAL_COMPONENTS
 ASSUMPTIONS = ["runs ending abnormally (cancellation, raising callbacks, nested errors) are outside the statement and not generated",
                "the attempt number carried by terminal events is not constrained by the statement", "sampling, not proof"]
-BUDGETS = {"quick": (20000, 40), "thorough": (1200000, 280)}
+BUDGETS = {"quick": (60000, 90), "thorough": (3000000, 285)}
 
 
 def gen(seed, tier="quick"):
